@@ -13,7 +13,7 @@ COQ_AGREE = 'C13_agree'
 COQ_MODEL_TARGETS = ['Model/C13_Model']
 RULE = ('histories (sequential, forward/backward jumps, repeated rounds, restarts) over in-memory, subset and SQLite datasets of 1..8 clients '
         'whose ids share prefixes and end in zero bytes, cohort sizes 1..number of clients, seeds incl. 0 and 2^32-1, '
-        'rounds up to 300 in the model and up to 10^6 at property level; streaming sampler over fd.shuffled_clients '
+        'rounds up to 2^31 (all evaluated in the model); streaming sampler over fd.shuffled_clients '
         'of all three implementations with buffer sizes 1..n+3 and seeds incl. 0, 1, 2^32-1, every comparison between independently '
         'created streams with numpy\'s global RNG perturbed in between; non-trivial = at least one sample() call returned; distinct = distinct case JSON')
 TRUSTED = ['np.random.RandomState(s).choice(ids, size=n, replace=False): n distinct elements of ids, deterministic in s '
@@ -24,10 +24,10 @@ ASSUMPTIONS = ['client ids are distinct python bytes; id equality is bytes equal
                'NumPy choice / randint contracts (section hypotheses of Props/C13.v)',
                'a JAX key is identified with its split path (round, index)']
 PARTIAL = []
-CASE_TIMEOUT = 60
+CASE_TIMEOUT = 180
 
 M31 = 2 ** 31 - 1
-MAX_MODEL_ROUND = 300
+MAX_MODEL_ROUND = 2 ** 31   # every round is evaluated in Coq (square-and-multiply, proved equal to the translated power)
 
 
 # --------------------------------------------------------------------------
@@ -76,7 +76,7 @@ def generate(tier, rng):
   for i in range(nget):
     nc = rng.choice([1, 2, 3, 4, 5, 6, 8])
     big = (i % 13 == 12)
-    maxround = 10 ** 6 if big else rng.choice([4, 12, 60, 150, MAX_MODEL_ROUND])
+    maxround = rng.choice([10 ** 6, 2 ** 31 - 2]) if big else rng.choice([4, 12, 60, 300, 5000])
     yield {'kind': 'get', 'ids': _ids(nc, i % 3), 'n': rng.randrange(1, nc + 1),
            'seed': rng.choice([0, 1, 2 ** 32 - 1, rng.randrange(2 ** 32), rng.randrange(100)]),
            'start': rng.choice([0, 0, 1, rng.randrange(0, maxround)]),
@@ -372,7 +372,7 @@ def describe(case, obs):
   if case['kind'] == 'get':
     rs = obs['rounds']
     d['samples'] = min(len(rs), 8)
-    d['max_round'] = 'le12' if max(rs + [0]) <= 12 else 'lemodel' if max(rs + [0]) <= MAX_MODEL_ROUND else 'big'
+    d['max_round'] = 'le12' if max(rs + [0]) <= 12 else 'le5000' if max(rs + [0]) <= 5000 else 'big'
     d['round_repeated'] = len(set(rs)) < len(rs)
     d['backward_jump'] = any(b < a for a, b in zip(rs, rs[1:]))
   else:
